@@ -79,8 +79,9 @@ class _Splice(ast.NodeTransformer):
 
 
 class StubEval:
-    def __init__(self, text, target_module=None):
+    def __init__(self, text, target_module=None, type_checking=False):
         self.text = text
+        self.type_checking = type_checking  # also execute imports under a top-level `if TYPE_CHECKING:` (names a type checker sees)
         self.events = []
         self.funcs = {}
         self.td_specs = {}
@@ -111,7 +112,19 @@ class StubEval:
 
     # -- imports
     def _imports(self):
-        for node in self.tree.body:
+        nodes = list(self.tree.body)
+        if self.type_checking:
+            for node in self.tree.body:
+                if isinstance(node, ast.If) and ast.unparse(node.test) in ("TYPE_CHECKING", "typing.TYPE_CHECKING"):
+                    nodes += [st for st in node.body if isinstance(st, (ast.Import, ast.ImportFrom))]
+                elif isinstance(node, ast.Try) and all(isinstance(st, (ast.Import, ast.ImportFrom, ast.Assign, ast.Pass))
+                                                       for part in [node.body, node.orelse] + [h.body for h in node.handlers] for st in part):
+                    # alternative imports (`try: from fast import X / except ImportError: from slow import X`) bind module-level names too
+                    try:
+                        exec(compile(ast.Module([node], []), "<source-try-import>", "exec"), self.ns)  # noqa: S102
+                    except Exception:
+                        pass
+        for node in nodes:
             if isinstance(node, (ast.Import, ast.ImportFrom)):
                 src = ast.unparse(node)
                 try:
